@@ -184,8 +184,8 @@ func c48Ops(thorough bool) []vsched.Op {
 
 func TestVerif_C48_globals(t *testing.T) {
 	vx.Run(t, "C48", func(c *vx.Ctx) {
-		bounds := vx.Pick(c, []int{2}, []int{-1})
-		c.Rule("concurrent part: for every unordered pair of calls from a small alphabet (Assemble of four programs (thorough five) that together use every instruction type, both registers, negated and X-operand jumps, extensions; Disassemble of each assembled program; Assemble of two rejected programs (error carries the instruction index); Disassemble of a program with unrecognised raw instructions; one single-instruction Assemble+Disassemble) two threads run one call each (thorough: twice each) on the instrumented bpf source starting from the package's initial state; every schedule (quick: at most 2 preemptions; thorough: unbounded) at the scheduling points — before each statement mentioning a written package-level variable " + fmt.Sprint(zzWrittenGlobals) + ", sync.Once, sync.Pool Get/Put, sync.Mutex — is executed and each call must return what it returns alone (complete rendering of the result slice, the allDecoded flag and the error text)")
+		bounds := vx.Pick(c, []int{2}, []int{3})
+		c.Rule("concurrent part: for every unordered pair of calls from a small alphabet (Assemble of four programs (thorough five) that together use every instruction type, both registers, negated and X-operand jumps, extensions; Disassemble of each assembled program; Assemble of two rejected programs (error carries the instruction index); Disassemble of a program with unrecognised raw instructions; one single-instruction Assemble+Disassemble) two threads run one call each (thorough: twice each) on the instrumented bpf source starting from the package's initial state; every schedule (quick: at most 2 preemptions; thorough: at most 3) at the scheduling points — before each statement mentioning a written package-level variable " + fmt.Sprint(zzWrittenGlobals) + ", sync.Once, sync.Pool Get/Put, sync.Mutex — is executed and each call must return what it returns alone (complete rendering of the result slice, the allDecoded flag and the error text)")
 		c.Assume("concurrent part: statement granularity at mentions of written package-level variables; accesses to heap objects only reachable from them and mutation through method calls are not scheduling points; if the package has no written package-level variable there is exactly one schedule per pair (the calls cannot interact through package state) and the part degenerates to a sequential differential test — it is kept because it is what catches a change that introduces shared state")
 		seq := 0
 		if !c.Quick() {
